@@ -314,5 +314,5 @@ def direction(run, f, det):
                 true_t = [tgt for v, tgt in t["arms"] if int(v) != 0] or [t["otherwise"]]
                 if all(int(v) == 0 for v, _ in t["arms"]):
                     true_t = [t["otherwise"]]
-                run.require(any(p in cfg.reachable_from(true_t[0]) for p in det.panics) and det.inserts[0] not in cfg.reachable_from(true_t[0]), "O14.5", "path-found-panics",
+                run.require(bool(det.inserts) and any(p in cfg.reachable_from(true_t[0]) for p in det.panics) and det.inserts[0] not in cfg.reachable_from(true_t[0]), "O14.5", "path-found-panics",
                             "a detected path does not lead to the panic (or still inserts the edge)", "has_path == true leads to the panic, not to the insert", loc=det.loc(blk.idx))
